@@ -29,7 +29,7 @@ import (
 
 // ---------- cases ----------
 type Op struct {
-	K     string `json:"k"` // ev plain adv flushall close
+	K     string `json:"k"` // ev plain adv flushall close | setexp (Filter.Expiration = D, between calls) | reopen type now (the other exported methods)
 	ID    int    `json:"id,omitempty"`
 	Flush bool   `json:"flush,omitempty"`
 	Done  bool   `json:"ctx_done,omitempty"` // the call is made with an already cancelled context (the model ignores the context)
@@ -299,6 +299,7 @@ type Grp struct {
 }
 type Obs struct {
 	Now          int64    `json:"now"`
+	Exp          int64    `json:"exp"` // Filter.Expiration as last set by the harness
 	Res          int      `json:"res"`
 	Comp         []pair   `json:"comp,omitempty"`
 	Compose      [][]pair `json:"compose,omitempty"`
@@ -469,9 +470,16 @@ func execCaseInner(c Case, at *int32) (calls []Op, nums []int, obs []Obs, panick
 		}
 	}()
 	n := 0
+	curExp := c.Cfg.Exp
 	for _, op := range c.Ops {
 		if op.K == "adv" {
 			atomic.AddInt64(&w.now, op.D)
+			continue
+		}
+		if op.K == "setexp" {
+			// Expiration is an exported field: a caller may change it between calls; groups keep the expiry fixed when they were opened
+			f.Expiration = time.Duration(op.D)
+			curExp = op.D
 			continue
 		}
 		n++
@@ -483,7 +491,7 @@ func execCaseInner(c Case, at *int32) (calls []Op, nums []int, obs []Obs, panick
 		c0, s0 := len(w.composeArgs), len(w.sent)
 		w.sentGateable = false
 		w.mu.Unlock()
-		o := Obs{Now: atomic.LoadInt64(&w.now)}
+		o := Obs{Now: atomic.LoadInt64(&w.now), Exp: curExp}
 		if op.K == "ev" && c.IDMap != nil && op.ID < len(c.IDMap) {
 			op.ID = c.IDMap[op.ID]
 		}
@@ -531,6 +539,23 @@ func execCaseInner(c Case, at *int32) (calls []Op, nums []int, obs []Obs, panick
 			o.Res = 4
 			if err != nil {
 				o.Res = 3
+			}
+		case "reopen", "type", "now":
+			// the other exported methods of the Filter: they have no business touching what is gated
+			o.Res = 4
+			switch op.K {
+			case "reopen":
+				if err := f.Reopen(); err != nil {
+					o.Res = 3
+				}
+			case "type":
+				if f.Type() != el.NodeTypeFilter {
+					o.Res = 3
+				}
+			default:
+				if got := f.Now(); got.UnixNano() != atomic.LoadInt64(&w.now) {
+					o.Res = 3
+				}
 			}
 		default:
 			panic("unknown op " + op.K)
@@ -812,6 +837,7 @@ type ReentryResult struct {
 	Steps           []string `json:"steps"`
 	Hang            bool     `json:"hang"`
 	HungAt          string   `json:"hung_at,omitempty"`
+	ReopenKept      bool     `json:"groups_kept_across_broker_reopen"`
 	GateableThrough int      `json:"gateable_composites_routed_by_the_broker"`
 	PlainThrough    int      `json:"plain_composites_routed_back_into_the_filter"`
 	Dump            string   `json:"goroutine_dump,omitempty"`
@@ -841,7 +867,7 @@ func runReentry(watchdog time.Duration) []ReentryResult {
 		{"gateable-flush", Cfg{Broker: true, Exp: 10, CGateLen: 1, CGateFlush: true}},
 	}
 	for _, k := range kinds {
-		for _, sc := range []string{"expiry-during-process", "sweep-oldest-expired-next-not", "flushall", "close-by-remove-pipeline-and-nodes"} {
+		for _, sc := range []string{"expiry-during-process", "sweep-oldest-expired-next-not", "flushall", "close-by-remove-pipeline-and-nodes", "broker-reopen"} {
 			w := &world{cfg: k.cfg, now: 1000, sameType: true}
 			cur = w
 			b, err := el.NewBroker()
@@ -880,6 +906,9 @@ func runReentry(watchdog time.Duration) []ReentryResult {
 				// a opened at 1000 (expires after 1010), b at 1005 (expires after 1015); at 1011 the sweep meets an expired group followed by one that is not
 				steps = append(steps, step{"advance clock by 5", func() { atomic.AddInt64(&w.now, 5) }}, step{"Send(b)", send("b")},
 					step{"advance clock by 6: a expired, b not", func() { atomic.AddInt64(&w.now, 6) }}, step{"Send(c) sweeps a, must step over b", send("c")}, step{"Send(d)", send("d")})
+			case "broker-reopen":
+				// Broker.Reopen (SIGHUP, log rotation) reaches the filter's Reopen: what is gated must stay gated
+				steps = append(steps, step{"Send(b)", send("b")}, step{"Broker.Reopen", func() { _ = b.Reopen(ctx) }})
 			case "flushall":
 				steps = append(steps, step{"FlushAll", func() { _ = f.FlushAll(ctx) }}, step{"Send(c)", send("c")})
 			default:
@@ -894,6 +923,11 @@ func runReentry(watchdog time.Duration) []ReentryResult {
 				}
 			}
 			tap.mu.Lock()
+			r.ReopenKept = true
+			if sc == "broker-reopen" && !r.Hang {
+				gs, _ := snapshot(f)
+				r.ReopenKept = len(gs) == 2 && gs[0].N == 1 && gs[1].N == 1
+			}
 			r.GateableThrough = tap.gateable
 			r.PlainThrough = tap.plain
 			tap.mu.Unlock()
@@ -933,11 +967,17 @@ func hopLit(op Op, n int) string {
 		return fmt.Sprintf("HPlain %s", hc.N(n))
 	case "flushall":
 		return "HFlushAll"
+	case "reopen":
+		return "HOther 1%N"
+	case "type":
+		return "HOther 2%N"
+	case "now":
+		return "HOther 3%N"
 	}
 	return "HClose"
 }
 func obsLit(o Obs) string {
-	return fmt.Sprintf("Build_gobs %s %s %s %s %s %s %s %s %s", hc.Z(o.Now), hc.N(o.Res), pairsLit(o.Comp), pairssLit(o.Compose), pairssLit(o.Sent),
+	return fmt.Sprintf("Build_gobs %s %s %s %s %s %s %s %s %s %s", hc.Z(o.Now), hc.Z(o.Exp), hc.N(o.Res), pairsLit(o.Comp), pairssLit(o.Compose), pairssLit(o.Sent),
 		hc.B(o.SentGateable), gatedLit(o.Gated), hc.B(o.IndexOK), hc.B(o.Mutated))
 }
 func cfgLit(c Cfg) string {
@@ -1133,7 +1173,7 @@ func alphabet(cfg Cfg, ids int) []Op {
 	}
 	a = append(a, Op{K: "ev", ID: 0}, Op{K: "plain"},
 		Op{K: "adv", D: 1}, Op{K: "adv", D: E - 1}, Op{K: "adv", D: E}, Op{K: "adv", D: E + 1},
-		Op{K: "flushall"}, Op{K: "close"})
+		Op{K: "flushall"}, Op{K: "close"}, Op{K: "reopen"})
 	return a
 }
 
@@ -1308,6 +1348,34 @@ func genFaults(e *emitter) {
 	}
 }
 
+// genOrder: open groups whose EXPIRY order differs from their ARRIVAL order — Filter.Expiration changed between the openings, or
+// the clock stepped back — then a Process / FlushAll at every instant around the expiries: after a successful Process at T no
+// group with expiry < T remains, wherever it sits in the list (C17), and the other exported methods interleaved do nothing.
+func genOrder(e *emitter) {
+	perms := [][]int64{{9, 6, 3}, {9, 3, 6}, {6, 9, 3}, {6, 3, 9}, {3, 9, 6}, {3, 6, 9}, {9, 3}, {3, 9}, {6, 6, 2}}
+	for _, broker := range []bool{true, false} {
+		for _, exps := range perms {
+			for T := int64(2); T <= 11; T++ {
+				for _, last := range []Op{{K: "ev", ID: 5}, {K: "ev", ID: 1}, {K: "ev", ID: 2, Flush: true}} {
+					var ops []Op
+					for g, x := range exps {
+						ops = append(ops, Op{K: "setexp", D: x}, Op{K: "ev", ID: g + 1})
+					}
+					ops = append(ops, Op{K: "reopen"}, Op{K: "adv", D: T}, last, Op{K: "type"}, Op{K: "adv", D: 12}, Op{K: "ev", ID: 4}, Op{K: "flushall"})
+					e.emit(Case{Gen: "expiry-order", Cfg: Cfg{Broker: broker, Exp: 10}, Ops: ops})
+				}
+			}
+		}
+		// the same by a clock that steps back between the openings (constant Expiration 10)
+		for _, back := range []int64{1, 5, 9, 10, 11} {
+			for T := back - 1; T <= back+12; T += 2 {
+				ops := []Op{{K: "ev", ID: 1}, {K: "adv", D: -back}, {K: "ev", ID: 2}, {K: "now"}, {K: "adv", D: T}, {K: "ev", ID: 3}, {K: "adv", D: 12}, {K: "ev", ID: 3}, {K: "close"}}
+				e.emit(Case{Gen: "expiry-order", Cfg: Cfg{Broker: broker, Exp: 10}, Ops: ops})
+			}
+		}
+	}
+}
+
 func maxID(h []Op) int {
 	m := 0
 	for _, o := range h {
@@ -1389,10 +1457,16 @@ func genRandom(e *emitter, r *hc.Rand, n, maxLen, ids int) {
 				ops = append(ops, Op{K: "plain"})
 			case k < 17:
 				d := advs[r.Intn(len(advs))]
-				if r.Chance(1, 40) {
-					d = -1
+				if r.Chance(1, 12) {
+					d = -[]int64{1, E / 2, E - 1, E + 1}[r.Intn(4)] // the clock steps back
 				}
 				ops = append(ops, Op{K: "adv", D: d})
+				if r.Chance(1, 6) {
+					ops = append(ops, Op{K: "setexp", D: []int64{1, E / 2, E, 2 * E, 3, 0}[r.Intn(6)]})
+				}
+				if r.Chance(1, 6) {
+					ops = append(ops, Op{K: []string{"reopen", "type", "now"}[r.Intn(3)]})
+				}
 			case k < 19:
 				ops = append(ops, Op{K: "flushall", Ctx: randCtx()})
 			default:
@@ -1605,6 +1679,7 @@ func main() {
 			genBlocked(e)
 		case "faults":
 			genFaults(e)
+			genOrder(e)
 		case "":
 		default:
 			fmt.Fprintf(os.Stderr, "unknown mode %s\n", m)
